@@ -119,6 +119,13 @@ func (g *G) props(scope int, cfg *Cfg) []ref.Prop {
 			for i := 0; i < n; i++ {
 				out = append(out, g.propValue(d, false))
 			}
+			if n >= 1 && g.big > 0 && t.Bool(1, 150) {
+				// key AND value at (or one below) the largest length: the widest single
+				// value MQTT has (131 074 bytes)
+				g.big--
+				out[first].K = g.str0(65535 - t.Int(2))
+				out[first].V = g.str0(65535 - t.Int(2))
+			}
 			if n >= 2 && t.Bool(1, 8) {
 				// two ADJACENT keys that are equal to a careless comparison and different to
 				// MQTT: they differ in letter case only (header names), long enough to look
@@ -683,11 +690,17 @@ func Bulk(t *sim.Tape, thorough bool) *ref.AP {
 	if over16 {
 		n = 65536 + t.Int(3000) // more elements than a 16-bit counter holds
 	}
-	tiny := func() []byte { return g.Str(1 + t.Int(2)) }
+	emptyEls := t.Bool(1, 5)
+	tiny := func() []byte {
+		if emptyEls {
+			return []byte{} // a long run of EMPTY elements (00 00 ...)
+		}
+		return g.Str(1 + t.Int(2))
+	}
 	ups := func(k int) []ref.Prop {
 		ps := make([]ref.Prop, 0, k)
 		for i := 0; i < k; i++ {
-			p := ref.Prop{ID: 0x26, K: tiny(), V: []byte{}}
+			p := ref.Prop{ID: 0x26, K: g.Str(1 + t.Int(2)), V: []byte{}}
 			if t.Bool(1, 2) {
 				p.V = tiny()
 			}
@@ -789,7 +802,15 @@ func BulkMedium(t *sim.Tape) *ref.AP {
 	g := &G{T: t}
 	n := 400 + t.Int(800)
 	val := func() []byte { return g.str0(1024 + t.Int(1024)) }
-	switch t.Int(3) {
+	switch t.Int(4) {
+	case 3:
+		// a CONNECT whose WILL property section alone exceeds 64 KiB
+		a := &ref.AP{Type: ref.Connect, ProtoName: []byte("MQTT"), ProtoVer: 5, ClientID: []byte("c"), ConnFlags: ref.CFWill}
+		a.Will = &ref.Will{Topic: []byte("w"), Payload: []byte("p")}
+		for i := 0; i < 50+n/10; i++ {
+			a.Will.Props = append(a.Will.Props, ref.Prop{ID: 0x26, K: []byte("k"), V: val()})
+		}
+		return a
 	case 0:
 		a := &ref.AP{Type: ref.Publish, Topic: []byte("t"), Payload: []byte("p")}
 		for i := 0; i < n; i++ {
